@@ -41,6 +41,44 @@ func runC19(c *Ctx) {
 	ruleE6(c)
 	ruleE7(c)
 	ruleS4(c, "S4")
+	ruleE8(c)
+}
+
+// ruleE8: the message on stderr is written by cobra when RunE returns an
+// error (main only turns the error into the exit status). Nothing in the
+// module may switch that off or redirect it: no store to Command.SilenceErrors
+// other than the constant false, no SetErr.
+func ruleE8(c *Ctx) {
+	r := c.R
+	r.Rule("E8", "cobra's error echo on stderr is never silenced or redirected", 1)
+	n := 0
+	for _, fn := range c.moduleFuncs() {
+		eachInstr(fn, func(ins ssa.Instruction) {
+			switch x := ins.(type) {
+			case *ssa.Store:
+				fa, ok := x.Addr.(*ssa.FieldAddr)
+				if !ok || fieldName(fa) != "SilenceErrors" || structNameOfPtr(fa.X.Type()) != "Command" {
+					return
+				}
+				n++
+				key := funcKey(fn) + "/SilenceErrors="
+				if k, isK := x.Val.(*ssa.Const); isK && k.Value != nil && k.Value.String() == "false" {
+					r.Discharge("E8", key, c.P.pos(x.Pos()), "explicitly false")
+				} else {
+					r.Finding("E8", key, c.P.pos(x.Pos()), "the command's SilenceErrors is set to "+exprOfValue(x.Val)+": when it is true a failing run exits 1 with nothing on stderr")
+				}
+			case *ssa.Call:
+				if name := calleeName(&x.Call); name == "(*github.com/spf13/cobra.Command).SetErr" {
+					n++
+					r.Finding("E8", funcKey(fn)+"/SetErr", c.P.pos(x.Pos()), "the command's error stream is redirected: the message for a failing run no longer reaches stderr")
+				}
+			}
+		})
+	}
+	// the positive side: main relies on Execute's echo — it prints nothing itself
+	if n == 0 {
+		r.Discharge("E8", "module/no-silencing", "-", "no store to cobra.Command.SilenceErrors and no SetErr call in the module")
+	}
 }
 
 // ruleE1: one obligation per call with an error result, per error-returning
